@@ -560,29 +560,38 @@ structure Decoded where
 
 abbrev Decoder := J → String → Option Decoded
 
-/-- `resolveCredential`: one level, then the `path_nested` chain -/
-def resolveLevels (decode : Decoder) : Level → List Level → J → Res Cred
-  | lv, rest, value =>
-    match lv.path with
+/-- one level of `resolveCredential`: evaluate the path, switch on the kind of value, decode with the level's format -/
+def resolveStep (decode : Decoder) (lv : Level) (value : J) : Res Decoded :=
+  match lv.path with
+  | none => .err "resolve"
+  | some p =>
+    match getPath p value with
     | none => .err "resolve"
-    | some p =>
-      match getPath p value with
+    | some target =>
+      let decoded : Option Decoded :=
+        match target with
+        | .str _ => if lv.fmt == "jwt_vc" || lv.fmt == "jwt_vp" then decode target lv.fmt else none
+        | .obj _ => if lv.fmt == "ldp_vc" || lv.fmt == "ldp_vp" then decode target lv.fmt else none
+        | _ => none
+      match decoded with
       | none => .err "resolve"
-      | some target =>
-        let decoded : Option Decoded :=
-          match target with
-          | .str _ => if lv.fmt == "jwt_vc" || lv.fmt == "jwt_vp" then decode target lv.fmt else none
-          | .obj _ => if lv.fmt == "ldp_vc" || lv.fmt == "ldp_vp" then decode target lv.fmt else none
-          | _ => none
-        match decoded with
-        | none => .err "resolve"
-        | some d =>
-          match rest with
-          | [] => (match d.cred with | some c => .ok c | none => .err "resolve")
-          | nx :: rest' => resolveLevels decode nx rest' (match d.asMap with | some m => m | none => .null)
+      | some d => .ok d
+
+/-- `resolveCredential`: one level, then the `path_nested` chain (evaluated on the decoded value's map view) -/
+def resolveLevels (decode : Decoder) : List Level → Level → J → Res Cred
+  | [], lv, value =>
+    match resolveStep decode lv value with
+    | .ok d => (match d.cred with | some c => .ok c | none => .err "resolve")
+    | .err e => .err e
+    | .panic s => .panic s
+  | nx :: rest, lv, value =>
+    match resolveStep decode lv value with
+    | .ok d => resolveLevels decode rest nx (match d.asMap with | some m => m | none => .null)
+    | .err e => .err e
+    | .panic s => .panic s
 
 def resolveCredential (decode : Decoder) (m : Mapping) (value : J) : Res Cred :=
-  resolveLevels decode m.top m.nested value
+  resolveLevels decode m.nested m.top value
 
 /-- `PresentationSubmission.Resolve`: input-descriptor id ↦ credential (a later entry with the same id overwrites) -/
 def resolve (cfg : Cfg) (decode : Decoder) (env : J) : List (String × Cred) → List Mapping → Res (List (String × Cred))
